@@ -14,6 +14,8 @@
 package main
 
 import (
+	"crypto/sha256"
+	"encoding/hex"
 	"flag"
 	"fmt"
 	"go/ast"
@@ -24,6 +26,9 @@ import (
 	"path/filepath"
 	"sort"
 	"strings"
+
+	simapp "github.com/KiraCore/sekai/app"
+	sdk "github.com/cosmos/cosmos-sdk/types"
 )
 
 var fset = token.NewFileSet()
@@ -208,6 +213,171 @@ func rotationVariant(fd *ast.FuncDecl) string {
 		return "fixed"
 	}
 	return ""
+}
+
+var permWriters = map[string]bool{"SaveNetworkActor": true, "DeleteNetworkActor": true, "AssignRoleToActor": true, "UnassignRoleFromActor": true,
+	"AssignRoleToAccount": true, "UnassignRoleFromAccount": true, "SetWhitelistAddressPermKey": true, "DeleteWhitelistAddressPermKey": true,
+	"AddWhitelistPermission": true, "AddBlacklistPermission": true, "RemoveWhitelistedPermission": true, "RemoveBlacklistedPermission": true,
+	"WhitelistRolePermission": true, "BlacklistRolePermission": true, "RemoveWhitelistRolePermission": true, "RemoveBlacklistRolePermission": true,
+	"CreateRole": true, "SetRole": true, "DeleteRole": true, "SetNextRoleId": true, "SetWhiltelistPermRoleKey": true}
+
+// externalWriters: call sites of the permission-store writers outside x/gov/keeper/{network_actor,permission_registry}.go
+func externalWriters(repo string) ([]string, []string) {
+	var rows, errs []string
+	filepath.Walk(filepath.Join(repo, "x"), func(path string, info os.FileInfo, err error) error {
+		if err != nil || info.IsDir() || !strings.HasSuffix(path, ".go") || strings.HasSuffix(path, "_test.go") || strings.HasSuffix(path, ".pb.go") || strings.HasSuffix(path, ".pb.gw.go") {
+			return nil
+		}
+		rel, _ := filepath.Rel(repo, path)
+		if rel == "x/gov/keeper/network_actor.go" || rel == "x/gov/keeper/permission_registry.go" || strings.Contains(rel, "/client/") || strings.Contains(rel, "/teststaking/") {
+			return nil
+		}
+		af, perr := parser.ParseFile(fset, path, nil, 0)
+		if perr != nil {
+			errs = append(errs, perr.Error())
+			return nil
+		}
+		for _, d := range af.Decls {
+			fd, ok := d.(*ast.FuncDecl)
+			if !ok || fd.Body == nil {
+				continue
+			}
+			counts := map[string]int{}
+			ast.Inspect(fd.Body, func(n ast.Node) bool {
+				if c, ok := n.(*ast.CallExpr); ok {
+					if sel, ok := c.Fun.(*ast.SelectorExpr); ok && permWriters[sel.Sel.Name] {
+						if _, isMsgServerMethod := sel.X.(*ast.Ident); !(isMsgServerMethod && sel.Sel.Name == "CreateRole" && false) {
+							counts[sel.Sel.Name]++
+						}
+					}
+				}
+				return true
+			})
+			var ks []string
+			for k := range counts {
+				ks = append(ks, k)
+			}
+			sort.Strings(ks)
+			for _, k := range ks {
+				name := fd.Name.Name
+				if r := recvName(fd); r != "" {
+					name = r + "." + name
+				}
+				rows = append(rows, fmt.Sprintf("%s:%s:%s x%d", rel, name, k, counts[k]))
+			}
+		}
+		return nil
+	})
+	sort.Strings(rows)
+	return rows, errs
+}
+
+func hashNode(n ast.Node) string {
+	h := sha256.Sum256([]byte(src(n)))
+	return hex.EncodeToString(h[:])[:12]
+}
+
+// fingerprints of the code the model was written from
+func fingerprints(repo string) ([]string, []string) {
+	var rows, errs []string
+	type sel struct {
+		file string
+		keep func(fd *ast.FuncDecl) bool
+	}
+	all := func(*ast.FuncDecl) bool { return true }
+	named := func(names ...string) func(*ast.FuncDecl) bool {
+		m := map[string]bool{}
+		for _, n := range names {
+			m[n] = true
+		}
+		return func(fd *ast.FuncDecl) bool { return m[fd.Name.Name] }
+	}
+	sels := []sel{
+		{"x/gov/keeper/util.go", named("CheckIfAllowedPermission", "getRolePermissions")},
+		{"x/gov/keeper/network_actor.go", all},
+		{"x/gov/keeper/permission_registry.go", all},
+		{"x/gov/types/types.go", func(fd *ast.FuncDecl) bool { return recvName(fd) == "Permissions" || fd.Name.Name == "NewPermissions" }},
+		{"x/gov/types/actor.go", all},
+		{"x/gov/genesis.go", named("InitGenesis", "ExportGenesis")},
+		{"x/gov/keeper/msg_server.go", named("SubmitProposal", "VoteProposal", "PollCreate", "UnassignRole", "AssignRole", "CreateRole", "RemoveBlacklistRolePermission",
+			"RemoveWhitelistRolePermission", "BlacklistRolePermission", "WhitelistRolePermission", "WhitelistPermissions", "RemoveWhitelistedPermissions",
+			"BlacklistPermissions", "RemoveBlacklistedPermissions", "ClaimCouncilor")},
+		{"x/gov/proposal_handler.go", func(fd *ast.FuncDecl) bool {
+			return fd.Name.Name == "Apply" && (strings.Contains(recvName(fd), "Permission") || strings.Contains(recvName(fd), "Role"))
+		}},
+		{"x/gov/types/router.go", all},
+		{"x/basket/keeper/keeper.go", named("CheckIfAllowedPermission")},
+		{"x/layer2/keeper/keeper.go", named("CheckIfAllowedPermission")},
+		{"x/collectives/keeper/keeper.go", named("CheckIfAllowedPermission")},
+	}
+	for _, sl := range sels {
+		af, err := parser.ParseFile(fset, filepath.Join(repo, sl.file), nil, 0)
+		if err != nil {
+			errs = append(errs, err.Error())
+			continue
+		}
+		n := 0
+		for _, d := range af.Decls {
+			if fd, ok := d.(*ast.FuncDecl); ok && fd.Body != nil && sl.keep(fd) {
+				name := fd.Name.Name
+				if r := recvName(fd); r != "" {
+					name = r + "." + name
+				}
+				rows = append(rows, fmt.Sprintf("%s:%s:%s", sl.file, name, hashNode(fd)))
+				n++
+			}
+		}
+		if n == 0 {
+			errs = append(errs, "fingerprint: nothing selected in "+sl.file)
+		}
+	}
+	// the gov:network_actor block of both rotation functions
+	for _, name := range []string{"RotateRecoveryAddress", "RotateValidatorByHalfRRTokenHolder"} {
+		fd, err := findFunc(filepath.Join(repo, "x", "recovery", "keeper", "msg_server.go"), "msgserver", name)
+		if err != nil {
+			errs = append(errs, err.Error())
+			continue
+		}
+		found := false
+		ast.Inspect(fd.Body, func(m ast.Node) bool {
+			if is, ok := m.(*ast.IfStmt); ok && !found && len(calls(is.Body, "DeleteNetworkActor")) > 0 {
+				rows = append(rows, fmt.Sprintf("x/recovery/keeper/msg_server.go:%s/network_actor:%s", name, hashNode(is)))
+				found = true
+				return false
+			}
+			return true
+		})
+		if !found {
+			errs = append(errs, "fingerprint: network_actor block not found in "+name)
+		}
+	}
+	sort.Strings(rows)
+	return rows, errs
+}
+
+// msgClasses: every kira.* sdk.Msg registered in the application, gated or not
+func msgClasses(gates []string) []string {
+	reg := simapp.MakeEncodingConfig().InterfaceRegistry
+	var rows []string
+	for _, url := range reg.ListImplementations(sdk.MsgInterfaceProtoName) {
+		if !strings.HasPrefix(url, "/kira.") {
+			continue
+		}
+		parts := strings.Split(strings.TrimPrefix(url, "/"), ".")
+		if len(parts) < 3 {
+			continue
+		}
+		handler := parts[1] + "." + strings.TrimPrefix(parts[len(parts)-1], "Msg") + ":"
+		class := "ungated"
+		for _, g := range gates {
+			if strings.HasPrefix(g, handler) {
+				class = "gated"
+			}
+		}
+		rows = append(rows, strings.TrimPrefix(url, "/")+":"+class)
+	}
+	sort.Strings(rows)
+	return rows
 }
 
 func main() {
@@ -438,6 +608,13 @@ func main() {
 	emit("msg_gates", "GATE", gates)
 	emit("wrapper_mismatch", "WRAPPER", mismatches)
 	emit("proposal_perms", "PROPOSAL", props)
+	writers, werrs := externalWriters(*repo)
+	fps, ferrs := fingerprints(*repo)
+	errs = append(errs, werrs...)
+	errs = append(errs, ferrs...)
+	emit("msg_classes", "MSG", msgClasses(gates))
+	emit("external_writers", "WRITER", writers)
+	emit("fingerprints", "FINGERPRINT", fps)
 	emit("gen_errors", "ERROR", errs)
 	sb.WriteString(fmt.Sprintf("Definition tree_dapp_perm : Z := %s. (* TREE dapp=%s *)\n", dappVal, dappVal))
 	sb.WriteString(fmt.Sprintf("Definition tree_claim_indexed : bool := %s. (* TREE claim_indexed=%s *)\n", claimIndexed, claimIndexed))
